@@ -119,6 +119,10 @@ pub fn make_spec(pool: &Pool, ix: &PoolIndex, seed: u64, kind: RunKind, allow_in
         Vec::new()
     };
     let total_calls_long = if let RunKind::Long { calls } = kind { calls } else { 0 };
+    // long histories: half of them concentrate on one evaluator, so that per-evaluator state (a bounded cache,
+    // a growing buffer) sees thousands of distinct calls; the hot-expression theme is mostly off there
+    let focus: Option<Ev> = if total_calls_long > 0 && r.chance(0.5) { Some(*r.pick(&ALL_EV)) } else { None };
+    let hot: Vec<u32> = if total_calls_long > 0 && r.chance(0.7) { Vec::new() } else { hot };
     let mut clients: Vec<Vec<u32>> = Vec::new();
     let mut churn: Vec<Vec<u32>> = Vec::new();
     for _t in 0..nthreads {
@@ -153,6 +157,24 @@ pub fn make_spec(pool: &Pool, ix: &PoolIndex, seed: u64, kind: RunKind, allow_in
                     }
                 }
                 continue;
+            }
+            if let Some(fe) = focus {
+                if r.chance(0.85) {
+                    // rejection-sample an entry of the focus evaluator
+                    let mut pickd = None;
+                    for _ in 0..12 {
+                        let c = r.below(pool.entries.len());
+                        let e = &pool.entries[c];
+                        if e.call.ev == fe && (f2 || !matches!(e.oracle, Outcome::Panic(_))) {
+                            pickd = Some(c as u32);
+                            break;
+                        }
+                    }
+                    if let Some(c) = pickd {
+                        calls.push(c);
+                        continue;
+                    }
+                }
             }
             let k = r.unit();
             if f2 && k < 0.08 {
